@@ -33,6 +33,7 @@ type Mod struct {
 	Imports  []string
 	Alias    map[string]string // further imports under a prefix that differs from the module name: prefix -> module
 	Includes []string
+	Rev      string // revision date ("" = none): the module is then registered under name and name@rev
 	Body     []*S
 }
 
@@ -111,6 +112,9 @@ func (m *Mod) Text() string {
 	} else {
 		fmt.Fprintf(&sb, `module %s { namespace "urn:%s"; prefix %s;`, m.Name, m.Name, m.Name)
 	}
+	if m.Rev != "" {
+		fmt.Fprintf(&sb, " revision %s;", m.Rev)
+	}
 	for _, i := range m.Imports {
 		fmt.Fprintf(&sb, " import %s { prefix %s; }", i, i)
 	}
@@ -137,19 +141,19 @@ func (m *Mod) Text() string {
 
 // E is a node of the expected (normalised) tree.
 type E struct {
-	Kind     string // module container leaf leaf-list list choice case rpc input output notification anydata
-	Name     string
-	NS       string // module whose text placed the node
-	Cfg      string // explicit config on this node
-	RO       bool   // effective: filled by Finish
-	TypeKind string // resolved built-in type name for leaves
-	TypeName string // name of the nearest typedef in the chain ("" if the leaf names a built-in directly)
-	Default  string
-	Min, Max string
+	Kind      string // module container leaf leaf-list list choice case rpc input output notification anydata
+	Name      string
+	NS        string // module whose text placed the node
+	Cfg       string // explicit config on this node
+	RO        bool   // effective: filled by Finish
+	TypeKind  string // resolved built-in type name for leaves
+	TypeName  string // name of the nearest typedef in the chain ("" if the leaf names a built-in directly)
+	Default   string
+	Min, Max  string
 	Must, Ext string
-	Implicit bool // implicit case: its own namespace is not compared
-	Kids     map[string]*E
-	Parent   *E
+	Implicit  bool // implicit case: its own namespace is not compared
+	Kids      map[string]*E
+	Parent    *E
 }
 
 func newE(kind, name, ns string) *E { return &E{Kind: kind, Name: name, NS: ns, Kids: map[string]*E{}} }
@@ -403,7 +407,7 @@ func (w *World) find(ctx *Mod, path string, create bool) *E {
 
 func canHaveChildren(e *E) bool {
 	switch e.Kind {
-	case "leaf", "leaf-list", "anydata", "rpc":
+	case "leaf", "leaf-list", "anydata", "anyxml", "rpc":
 		return false
 	}
 	return true
